@@ -228,6 +228,31 @@ let run_case (line:str) : str =
       Printf.sprintf "%d:%s" (Buffer.length buf) (Digest.to_hex (Digest.string (Buffer.contents buf))) in
     dg (fs_get ap s) ^ " " ^ dg (fs_get tp s)
   | "kill" -> "safe"
+  | "convert" ->
+    let dedup = ti ts = 1 in
+    let nm = ti ts in
+    let nums n = L.init n (fun _ -> let a = tok ts in if a = "x" then None else Some (z_of_string a, nat_of_int (ti ts))) in
+    let meta = L.init nm (fun _ ->
+      match tok ts with
+      | "format" -> let v = bytes_of_hex (tok ts) in let j = bytes_of_hex (tok ts) in (MFormat v, j)
+      | "compression" -> let v = bytes_of_hex (tok ts) in let j = bytes_of_hex (tok ts) in (MCompression v, j)
+      | "bounds" -> let n = ti ts in (MBounds (nums n), [])
+      | "center" -> let n = ti ts in let ps = nums n in let z = tok ts in (MCenter (ps, (if z = "x" then None else Some (z_of_string z))), [])
+      | "json" -> let n = ti ts in (MJson (L.init n (fun _ -> let k = bytes_of_hex (tok ts) in let v = bytes_of_hex (tok ts) in (k, v))), [])
+      | "scheme" -> (MScheme, [])
+      | _ -> let k = bytes_of_hex (tok ts) in let v = bytes_of_hex (tok ts) in (MDescr (k, v), [])) in
+    let nr = ti ts in
+    let rg = L.init nr (fun _ -> let z = tn ts in let x = tn ts in let y = tn ts in let b = bytes_of_hex (tok ts) in let g = tok ts in
+                                 ({ m_z = z; m_x = x; m_y = y; m_blob = b }, (b, g))) in
+    let gz b = match L.assoc_opt b (L.map snd rg) with Some g when g <> "-" -> bytes_of_hex g | _ -> b in
+    let str b = let buf = Buffer.create 64 in L.iter (fun x -> Buffer.add_char buf (Char.chr (int_of_n x))) b; Buffer.contents buf in
+    (match convert gz id_bytes dedup meta (L.map fst rg) N0 N0 N0 with
+     | CVOk (a, json) ->
+       let kv = L.sort (fun (a, _) (b, _) -> compare (str a) (str b)) json in
+       S.concat " " (["ok"; proj_str a.a_hdr; ents_str a.a_entries; hex_of_bytes a.a_data; string_of_int (L.length kv)]
+                     @ L.concat_map (fun (k, v) -> [hex_of_bytes k; hex_of_bytes v]) kv)
+     | CVErr -> "err"
+     | CVCrash -> "crash")
   | "multirange" ->
     let base = tn ts in let maxb = tn ts in let n = ti ts in
     let rs = L.init n (fun _ -> let s = tn ts in let l = tn ts in { c_src = s; c_dst = s; c_len = l }) in
